@@ -142,6 +142,8 @@ def main(run, tier):
     cs, lemmas, env = cs_.build(sm)
     prove_lemmas(run, lemmas, both=(tier == 'thorough'))
     verify_functions(run, cs, dict((c.qualname, c) for c in cs), {}, tier=tier, both=(tier == 'thorough'))
+    from . import pathobl
+    pathobl.add(run, tier)
     # ---- bounded: synthetic streams
     n = nfail = 0
     for frags in synthetic_streams(tier, run.seed):
